@@ -803,6 +803,12 @@ func HandleStore(deps ServerDeps, conn net.Conn, tag string, parts []string, sta
 		return
 	}
 
+	// A mailbox opened with EXAMINE is read-only for this session
+	if state.ReadOnly {
+		deps.SendResponse(conn, fmt.Sprintf("%s NO [READ-ONLY] Mailbox is read-only", tag))
+		return
+	}
+
 	// Parse command: STORE sequence data-item value
 	if len(parts) < 4 {
 		deps.SendResponse(conn, fmt.Sprintf("%s BAD STORE requires sequence set, data item, and value", tag))
@@ -1555,6 +1561,12 @@ func HandleExpunge(deps ServerDeps, conn net.Conn, tag string, state *models.Cli
 	// Per RFC 3501: EXPUNGE is only valid in Selected state
 	if state.SelectedMailboxID == 0 {
 		deps.SendResponse(conn, fmt.Sprintf("%s NO No mailbox selected", tag))
+		return
+	}
+
+	// A mailbox opened with EXAMINE is read-only for this session
+	if state.ReadOnly {
+		deps.SendResponse(conn, fmt.Sprintf("%s NO [READ-ONLY] Mailbox is read-only", tag))
 		return
 	}
 
